@@ -85,7 +85,7 @@ func segments(c *Case, s *stream) [][]byte {
 	n := len(s.bytes)
 	var cuts []int
 	switch c.Kind {
-	case "aligned":
+	case "aligned", "many_empties":
 		cuts = append(cuts, s.bounds...)
 	case "fixed":
 		for p := c.K; p < n; p += c.K {
@@ -135,6 +135,12 @@ func segments(c *Case, s *stream) [][]byte {
 		out = append(out, s.bytes[prev:p])
 		if c.Kind == "empties" {
 			out = append(out, []byte{})
+		}
+		if c.Kind == "many_empties" {
+			// a run of empty binary messages contributes nothing to the concatenation, however long it is
+			for k := 0; k < 40+c.K; k++ {
+				out = append(out, []byte{})
+			}
 		}
 		prev = p
 	}
@@ -406,6 +412,9 @@ func genCases(r *monitor.Run) []Case {
 			sz = append(sz, []int{0, 1, 10, 1020 + rng.Intn(10), 2044 + rng.Intn(10), rng.Intn(5000)}[rng.Intn(6)])
 		}
 		cs = append(cs, Case{Kind: kind, V: []byte{4, 5}[rng.Intn(2)], Sizes: sz, Seed: rng.Int63()})
+	}
+	for _, k := range []int{0, 59, 60, 61, 160, 400} {
+		cs = append(cs, Case{Kind: "many_empties", K: k, V: []byte{4, 5}[k%2], Sizes: []int{10, 1030, 0}, Seed: rng.Int63()})
 	}
 	return cs
 }
